@@ -53,7 +53,7 @@ def _fixed_block(scope, sfx, ty, sz, o):
 
 //@@fn file=bytes.rs src=expanded scope="%(scope)s" name=put_%(ty)s_%(o)s rename=put_%(ty)s_%(o)s%(sfx)s xlate=plain props=C14
 //@subst /self\\.put_%(ty)s_%(o)s_unchecked\\(/ => self.put_%(ty)s_%(o)s_unchecked%(sfx)s(
-//@subst /self\\.capacity\\(\\)/ => self.capacity%(sfx)s()
+//@subst? /self\\.capacity\\(\\)/ => self.capacity%(sfx)s()
 //@contract
   requires old(self).inv(),
   ensures
